@@ -44,7 +44,7 @@ func init() {
 	register(&Property{
 		ID:    "C22",
 		Level: "exploration",
-		Rule: "for the name of a builtin (`cpuarch`) and a fresh name: every subset of {private in the caller's module, alias, murex function, builtin, external executable in PATH} is defined (exhaustive) and the name is called once from the defining module and once from another module; each definition prints its own tag; plus alias-chain shapes (alias to alias, alias to itself with and without a function / external behind it, alias to function, alias to private); " +
+		Rule: "for the name of a builtin (`cpuarch`) and a fresh name: every subset of {private in the caller's module, alias, murex function, builtin, external executable in PATH} is defined (exhaustive) and the name is called once from the defining module and once from another module (modules being separate harness forks, and also separate `source { }` blocks of one program); each definition prints its own tag; plus alias-chain shapes (alias to alias, alias to itself with and without a function / external behind it, alias to function, alias to private); " +
 			"oracle: first match in the order private > alias > function > builtin > external, an alias is expanded exactly once (its target is resolved without alias lookup), every case finishes; non-trivial = at least two kinds are defined for the name, or an alias chain; distinct by (name, definitions, call site)",
 		Assumptions: []string{"the external executables are helper programs placed in a PATH directory used only by this check", "global aliases and functions are removed at the end of every case and workers are recycled every 40 cases"},
 		Technique:   "runtime monitoring: exhaustive definition subsets executed by the real resolver, tag printed by the definition that ran compared with the documented precedence",
@@ -92,6 +92,37 @@ func init() {
 					b2 := fmt.Sprintf("out \"\x1eCALL\"\n%s\nout \"\x1eEND\"\n!alias %s\n!function %s\n", name, name, name)
 					id++
 					e := c22Expect{Name: name, Defs: defs, Inside: c22Resolve(defs, true), Outside: c22Resolve(defs, false), Shape: "subset", NT: len(defs) >= 2}
+					exp, _ := json.Marshal(e)
+					cases = append(cases, &proto.Case{ID: fmt.Sprintf("c22-%d", id), Op: "prog", Blocks: []string{b1.String(), b2}, Events: true, Expect: exp, TimeoutMs: 30000})
+				}
+			}
+			// the same precedence through `source { }` blocks: each sourced block is a module of its own, so a
+			// private defined in one is found from inside that block and not from a function sourced by another
+			for _, name := range []string{"cpuarch", "c22name"} {
+				for mask := 0; mask < 4; mask++ {
+					defs := []string{"private", "external"}
+					if mask&1 != 0 {
+						defs = append(defs, "alias")
+					}
+					if mask&2 != 0 {
+						defs = append(defs, "function")
+					}
+					if name == "cpuarch" {
+						defs = append(defs, "builtin")
+					}
+					var b1 strings.Builder
+					fmt.Fprintf(&b1, "!alias %s\n!function %s\n", name, name)
+					if c22Has(defs, "alias") {
+						fmt.Fprintf(&b1, "alias %s=out alias\n", name)
+					}
+					if c22Has(defs, "function") {
+						fmt.Fprintf(&b1, "function %s { out function }\n", name)
+					}
+					fmt.Fprintf(&b1, "source { private %s { out private }\nout \"\x1eCALL\"\n%s }\n", name, name)
+					b2 := fmt.Sprintf("source { private %s { out private } }\nsource { function c22caller { out \"\x1eCALL\"\n%s } }\nc22caller\nout \"\x1eEND\"\n!function c22caller\n!alias %s\n!function %s\n", name, name, name, name)
+					id++
+					e := c22Expect{Name: name, Defs: defs, Inside: c22Resolve(defs, true), Outside: c22Resolve(defs, false), Shape: "subset", NT: true}
+					e.Defs = append([]string{"via-source-blocks"}, defs...)
 					exp, _ := json.Marshal(e)
 					cases = append(cases, &proto.Case{ID: fmt.Sprintf("c22-%d", id), Op: "prog", Blocks: []string{b1.String(), b2}, Events: true, Expect: exp, TimeoutMs: 30000})
 				}
